@@ -1852,7 +1852,16 @@ func canon(v ssa.Value) ssa.Value {
 			// a load of a captured cell inside a closure: resolve through the binding when the
 			// closure has exactly one creation site
 			if fv, isFV := u.X.(*ssa.FreeVar); isFV {
-				if b := freeVarBinding(fv); b != nil {
+				b := freeVarBinding(fv)
+				// a literal nested in a literal passes its own free variable on
+				for d := 0; d < 4 && b != nil; d++ {
+					fv2, isFV2 := b.(*ssa.FreeVar)
+					if !isFV2 {
+						break
+					}
+					b = freeVarBinding(fv2)
+				}
+				if b != nil {
 					if s := spilled(b); s != nil {
 						v = s
 						continue
@@ -2187,4 +2196,21 @@ func valuesReaching(v ssa.Value, at ssa.Instruction) []ssa.Value {
 		return []ssa.Value{v}
 	}
 	return out
+}
+
+// instrsOfDeep visits the instructions of fn and of the function literals fn invokes in place
+// (`func() { ... }()`, `defer func() { ... }()`), recursively: code that runs as part of fn.
+func instrsOfDeep(fn *ssa.Function, f func(ssa.Instruction)) {
+	var walk func(g *ssa.Function, d int)
+	walk = func(g *ssa.Function, d int) {
+		instrsOf(g, func(in ssa.Instruction) {
+			f(in)
+			if ci, ok := in.(ssa.CallInstruction); ok && d < 4 {
+				if lit := inlineLiteralOf(ci); lit != nil {
+					walk(lit, d+1)
+				}
+			}
+		})
+	}
+	walk(fn, 0)
 }
